@@ -16,6 +16,7 @@ mod registry;
 mod seq;
 mod sm;
 mod smreplay;
+mod snapinstall;
 mod store;
 mod util;
 
@@ -34,6 +35,7 @@ fn main() {
         ("record", "logfile") => logfile::record(&args[3..]),
         ("replay", "sm") => smreplay::replay(&args[3..]),
         ("record", "sm") => smreplay::record(&args[3..]),
+        ("replay", "snapinstall") => snapinstall::replay(&args[3..]),
         ("replay", "cfgcenter") => cfgcenter::replay(&args[3..]),
         ("replay", "registry") => registry::replay(&args[3..]),
         ("record", "seqgroup") => seq::record_seqgroup(&args[3..]),
